@@ -214,7 +214,41 @@ def rule_d(ctx):
     ctx.check(not dm and not dmi, rid, "no-derefmut", "no DerefMut impl on the lock's guard types (a published snapshot cannot be mutated in place)", None, dm + [x["self"] for x in dmi])
 
 
+def rule_e(ctx):
+    """read-modify-write atomicity: the snapshot a mutator publishes is a modified clone of the data read through the very write guard it
+    publishes with (one writer-lock critical section from the read to the publish) — otherwise a concurrent mutator's update is lost"""
+    F = ctx.F
+    rid = "C02.e"
+    ctx.rule(rid, "copy-modify-publish happens inside one critical section of the writer lock: the value given to `store` derives from a clone whose "
+                  "source was read through the same write guard", floor=3)
+    n = 0
+    for m in F.inst:
+        if m.body is None or not m.local or m.crate != "signal_hook_registry":
+            continue
+        for bb, t in m.calls():
+            if t.get("f") is None or F.inst[t["f"]].name != "signal_hook_registry::half_lock::WriteGuard::<'_, %s>::store" % DATA_T:
+                continue
+            n += 1
+            ctx.fn(m)
+            g = deps(m, flow(m).term_arg(bb, 0))
+            writes = {x[1] for x in g if x[0] == "call" and (m.term(x[1]).get("def") or "").endswith("HalfLock::<T>::write")}
+            v = deps(m, flow(m).term_arg(bb, 1))
+            clones = [x[1] for x in v if x[0] == "call" and (m.term(x[1]).get("def") or "").endswith("Clone::clone") and DATA_T in "".join(m.term(x[1]).get("targs") or [])]
+            okk = False; src = []
+            for c in clones:
+                cd = deps(m, flow(m).term_arg(c, 0))
+                src.append(sorted((m.term(x[1]).get("def") or "?").split("::")[-1] for x in cd if x[0] == "call"))
+                if writes and any(("call", w) in cd for w in writes):
+                    okk = True
+            ctx.check(okk and len(writes) == 1, rid, "rmw-under-one-guard@%s" % keyname(m.name), "%s publishes a clone of the snapshot read through the same write guard"
+                      % m.name.split("::")[-1].split("<")[0], t["sp"], {"write_guards": len(writes), "clone_sources": src,
+                                                                       "consequence": "a registration/removal completed by another thread in between is silently undone"})
+    if n < 3:
+        raise AnchorLost("publishing mutators found: %d" % n)
+
+
 def run(ctx):
+    ctx.guarded("C02.e", rule_e)
     ctx.guarded("C02.a", rule_a)
     ctx.guarded("C02.b", rule_b)
     ctx.guarded("C02.c", rule_c)
